@@ -1,0 +1,55 @@
+//go:build verif
+
+package verifspec
+
+// Contracts for compiler/utils.go: whitespace removal, string-literal encoding (C14, C16, C19).
+
+//@ func compiler.needsSpace
+//@ property C16 C19
+//@   ensures result == ((c >= 'a' && c <= 'z') || (c >= 'A' && c <= 'Z') || (c >= '0' && c <= '9') || c == '_' || c == '$' || c == 8)
+
+// ---- ghost state of a bytes.Buffer: its contents.
+//@ ghostfn buf seq
+
+//@ extern bytes.NewBuffer
+//@   param b
+//@   requires len(b) == 0
+//@   ensures result != nil && buf(result) == empty()
+
+//@ extern bytes.Buffer.WriteString
+//@   param b s
+//@   assigns buf(b)
+//@   ensures buf(b) == cat(old(buf(b)), seq(s))
+
+//@ extern bytes.Buffer.WriteByte
+//@   param b c
+//@   assigns buf(b)
+//@   ensures buf(b) == cat(old(buf(b)), byteseq(c))
+
+//@ extern bytes.Buffer.String
+//@   param b
+//@   ensures seq(result) == buf(b)
+
+//@ pure hexdigit(d int) int = d < 10 ? 48 + d : 55 + d
+
+// fmt.Fprintf(buffer, `\x%02X`, r) for a byte r: the only format the encoder uses.
+//@ extern fmt.Fprintf
+//@   param w format a
+//@   requires format == "\\x%02X" && len(a) == 1
+//@   assigns buf(w)
+//@   ensures buf(w) == cat(old(buf(w)), cat(seq("\\x"), byteseq(hexdigit(unboxint(a[0]) / 16)), byteseq(hexdigit(unboxint(a[0]) % 16))))
+
+// esc(c): the JavaScript string-literal spelling of the single code unit c, written from the ECMA-262 StringLiteral
+// grammar (SingleEscapeCharacter / HexEscapeSequence), not from the code.
+//@ pure esc(c int) seq = c == 8 ? seq("\\b") : (c == 12 ? seq("\\f") : (c == 10 ? seq("\\n") : (c == 13 ? seq("\\r") : (c == 9 ? seq("\\t") : (c == 11 ? seq("\\v") : (c == 34 ? seq("\\\"") : (c == 92 ? seq("\\\\") : ((c < 32 || c > 126) ? cat(seq("\\x"), byteseq(hexdigit(c / 16)), byteseq(hexdigit(c % 16))) : byteseq(c)))))))))
+//@ pure escAll(s string) seq = len(s) == 0 ? empty() : cat(esc(s[0]), escAll(s[1:]))
+
+//@ func compiler.encodeString
+//@ property C14 C16
+//@   ensures seq(result) == cat(byteseq(34), escAll(s), byteseq(34))
+//@   loop 1 assigns buf(buffer)
+//@   loop 1 invariant 0 <= $i1 && $i1 <= len(s)
+//@   loop 1 invariant cat(buf(buffer), escAll(s[$i1:])) == escAll(s)
+//@   loop 1 hint head: unfold escAll(s[$i1:])
+//@   loop 1 hint exit: unfold escAll(s[$i1:])
+//@   loop 1 decreases len(s) - $i1
